@@ -409,6 +409,17 @@ func (r *irRun) apply(st Step) error {
 		if parkedFor("join.log", r.mine, d) == nil {
 			return fmt.Errorf("batch did not join")
 		}
+		if r.in.Type == "log" {
+			// a reader lists the event log in the middle of the merge (the first log of the batch is in, the rest is not):
+			// whatever it sees, later listings show what the log holds then
+			done := make(chan struct{})
+			go func() { _ = r.listed(r.ref); close(done) }()
+			select {
+			case <-done:
+				r.res.Stats["reads_in_the_middle_of_a_merge"]++
+			case <-time.After(100 * time.Millisecond):
+			}
+		}
 	case "BIndexWait":
 		p := parkedFor("join.log", r.mine, d)
 		if p == nil {
